@@ -249,6 +249,16 @@ def gen_case(ctx):
                 feats.add("dict-falsy")
             if not refs_in(n):
                 feats.add("zeroprior-extra")
+    # --- constants that are not floats: None, str, tuple, list, int, a plain instance (database: none / string_value /
+    #     collection / value / instance rows; dict: JSON null, string, "tuple"/"list"/"instance" types)
+    c["opaques"] = []
+    if rng.random() < 0.2:
+        ms = [(p, n) for p, n in levels(root) if n["t"] == "model" and not any(p[:1] == [k] for k in c["passed"])]
+        if ms:
+            p, n = rng.choice(ms)
+            for nm, kind in zip(["note", "aux"], rng.sample(["none", "str", "tuple", "list", "int", "inst"], rng.choice([1, 2]))):
+                c["opaques"].append([p, nm, kind])
+                feats.add("opaque")
     # --- assertions
     assertable = [r for r in used if r not in passed_refs]
     lv = [p for p, n in levels(root) if refs_in(n) and not any(p[:1] == [k] for k in c["passed"])]
@@ -278,7 +288,7 @@ def gen_case(ctx):
     steps = []
     for _ in range(rng.choice([1, 1, 2, 2, 3])):
         form = rng.choices(["dict", "pickle", "db"], [40, 22, 38])[0]
-        variant = {"dict": rng.choice(["dict", "dict", "autoconf", "file"]), "pickle": rng.choice(["pickle", "dill"]), "db": "fit"}[form]
+        variant = {"dict": rng.choice(["dict", "dict", "autoconf", "file", "reference"]), "pickle": rng.choice(["pickle", "dill"]), "db": "fit"}[form]
         steps.append({"form": form, "variant": variant})
     c["steps"] = steps
     c["values"] = [(rng.randint(-16, 16) / 8.0).hex() for _ in pool]
@@ -362,6 +372,9 @@ def same_expected(e, got, c, pool_ids, passed_refs, path=()):
                 exp_attrs.append((k, {"t": "tuple*", "members": [("%s_%d" % (k, i), m) for i, m in enumerate(sub["members"])]}))
             else:
                 exp_attrs.append((k, sub))
+        for lv, name, kind in c.get("opaques", []):
+            if list(lv) == list(path):
+                exp_attrs.append((name, {"t": "opaque*", "kind": kind}))
         for lv, name, items in c["dicts"]:
             if list(lv) == list(path):
                 exp_attrs.append((name, {"t": "dict*", "items": items}))
@@ -376,6 +389,10 @@ def same_expected(e, got, c, pool_ids, passed_refs, path=()):
                 for (mk, m), (gmk, gm) in zip(sub["members"], gsub["members"]):
                     if mk != gmk or not same_expected(m, gm, c, pool_ids, passed_refs):
                         return False
+            elif sub["t"] == "opaque*":
+                want = {"none": "other", "str": "other", "tuple": "other", "list": "other", "int": "const", "inst": "inst"}[sub["kind"]]
+                if gsub["t"] != want or (sub["kind"] == "int" and not gsub.get("int")):
+                    return False
             elif sub["t"] == "dict*":
                 if gsub["t"] != "dict" or [[a, unhex(b)] for a, b in gsub["items"]] != [[a, unhex(b)] for a, b in sub["items"]]:
                     return False
@@ -401,7 +418,7 @@ def same_assert(e, g, c, pool_ids, passed_refs):
 # --------------------------------------------------------------------------------------
 def kids(s):
     t = s["t"]
-    if t in ("model", "coll", "inst"):
+    if t in ("model", "coll", "inst", "array"):
         return [(k, v) for k, v in s["attrs"]]
     if t == "tuple":
         return [(k, v) for k, v in s["members"]]
@@ -416,7 +433,7 @@ def occurrences(s, path=()):
         return [(path, s)]
     out = []
     if s["t"] == "arith":          # name blind: both operands, whatever their attribute names are
-        return occurrences(s["l"], path + (s["ln"],)) + occurrences(s["r"], path + (s["rn"],))
+        return occurrences(s["l"], path + ("<l>",)) + occurrences(s["r"], path + ("<r>",))
     for k, v in kids(s):
         out += occurrences(v, path + (k,))
     return out
@@ -427,18 +444,72 @@ def arith_blind(s):
     t = s["t"]
     if t == "arith":
         return {"t": "arith", "op": s["op"], "l": arith_blind(s["l"]), "r": arith_blind(s["r"])}
-    if t in ("model", "coll", "inst"):
+    if t in ("model", "coll", "inst", "array"):
         out = {"t": "node", "cls": s.get("cls"), "attrs": [[k, arith_blind(v)] for k, v in s["attrs"]]}
+        if t == "array":
+            out["shape"], out["indices"] = s["shape"], s["indices"]
         return out
     if t == "tuple":
         return {"t": "tuple", "members": [[k, arith_blind(v)] for k, v in s["members"]]}
     if t == "prior":
         return {"t": "prior", "spec": [s["fam"], unhex(s["lo"]), unhex(s["hi"]), [unhex(x) for x in s["par"]]]}
     if t == "const":
-        return {"t": "const", "v": unhex(s["v"])}
+        return {"t": "const", "v": unhex(s["v"]), "int": bool(s.get("int"))}
     if t == "dict":
         return {"t": "dict", "items": [[k, unhex(v)] for k, v in s["items"]]}
     return dict(s)
+
+
+def first_diff(a, b, path=()):
+    """Location (attribute path) of the first difference of two arith_blind trees / abstract instances."""
+    if type(a) != type(b):
+        return path
+    if isinstance(a, dict):
+        if a.get("t") != b.get("t"):
+            return path
+        for key in ("attrs", "fields", "members"):
+            if key in a or key in b:
+                xa, xb = a.get(key, []), b.get(key, [])
+                for (ka, va), (kb, vb) in zip(xa, xb):
+                    if ka != kb:
+                        return path + (ka,)
+                    d = first_diff(va, vb, path + (ka,))
+                    if d is not None:
+                        return d
+                if len(xa) != len(xb):
+                    return path + ((xa + xb)[min(len(xa), len(xb))][0],)
+        if a.get("t") == "arith":
+            for k in ("l", "r"):
+                d = first_diff(a[k], b[k], path + ("<%s>" % k,))
+                if d is not None:
+                    return d
+        if a.get("t") == "tup":
+            for i, (x, y) in enumerate(zip(a["vs"], b["vs"])):
+                d = first_diff(x, y, path + (str(i),))
+                if d is not None:
+                    return d
+        ra = {k: v for k, v in a.items() if k not in ("attrs", "fields", "members", "l", "r", "vs", "v")}
+        rb = {k: v for k, v in b.items() if k not in ("attrs", "fields", "members", "l", "r", "vs", "v")}
+        if ra != rb:
+            return path
+        if "v" in a and a.get("t") in ("const", "v"):
+            va, vb = a["v"], b["v"]
+            va = unhex(va) if isinstance(va, str) else va
+            vb = unhex(vb) if isinstance(vb, str) else vb
+            if not (va == vb or (va != va and vb != vb)):
+                return path
+        return None
+    return None if a == b else path
+
+
+def item_numbers(s, path=()):
+    out = []
+    if s["t"] == "coll":
+        out.append((path, s.get("item_number")))
+    for k, v in kids(s):
+        if s["t"] != "arith":
+            out += item_numbers(v, path + (k,))
+    return out
 
 
 def constants(s, path=()):
@@ -525,70 +596,93 @@ def same_inst(a, b):
     return C01.same_inst(a, b)
 
 
-def compare_states(prev, nxt, form):
-    """The property between a model and its reloaded form. Returns [(clause, message)].
-    Clauses `paths`/`instance` state the property text literally (values supplied per PATH); the
-    `*-pos` clauses restate it by walk position, so that a renamed path cannot hide anything else."""
+def compare_states(prev, nxt, form, step=None):
+    """The property between a model and its reloaded form. Returns [(clause, message, where)].
+    Clauses `paths*`/`instance-strict` state the property text literally (values supplied per PATH); the
+    `*-pos` clauses restate it by walk position, so that a renamed path cannot hide anything else.
+    `where` is the attribute path of the first difference (used only to NARROW finding classes)."""
     out = []
     a, b = prev["state"], nxt["state"]
+    oa, ob = occurrences(a), occurrences(b)
+    blind_same = sorted(p for p, _ in oa) == sorted(p for p, _ in ob)      # paths with operand names replaced by <l>/<r>
     # ---- literal: same set of parameter paths
     if sorted(map(tuple, prev["paths"])) != sorted(map(tuple, nxt["paths"])):
-        out.append(("paths", "parameter paths changed: %s -> %s" % (sorted(prev["paths"])[:6], sorted(nxt["paths"])[:6])))
+        out.append(("paths-arith-names" if blind_same else "paths",
+                    "parameter paths changed: %s -> %s" % (sorted(prev["paths"])[:6], sorted(nxt["paths"])[:6]), ()))
     else:
         ida = {tuple(p): i for p, i in prev["path_ids"]}
         idb = {tuple(p): i for p, i in nxt["path_ids"]}
         fwd, bwd = {}, {}
         for p in ida:
             if fwd.setdefault(ida[p], idb[p]) != idb[p]:
-                out.append(("partition", "a shared parameter was split at path %s" % ".".join(p)))
+                out.append(("partition", "a shared parameter was split at path %s" % ".".join(p), p))
                 break
             if bwd.setdefault(idb[p], ida[p]) != ida[p]:
-                out.append(("partition", "two distinct parameters were merged (path %s)" % ".".join(p)))
+                out.append(("partition", "two distinct parameters were merged (path %s)" % ".".join(p), p))
                 break
     if nxt["count"] != prev["count"]:
-        out.append(("partition", "prior_count %d -> %d" % (prev["count"], nxt["count"])))
+        out.append(("partition", "prior_count %d -> %d" % (prev["count"], nxt["count"]), ()))
     if not nxt["paths_resolve"]:
-        out.append(("paths", "an advertised path of the reloaded model does not resolve to its prior"))
+        out.append(("paths-resolve", "an advertised path of the reloaded model does not resolve to its prior", ()))
+    if not nxt.get("pv_complete", True):
+        out.append(("pv-incomplete", "a parameter of the reloaded model has no counterpart (by walk position) in the original", ()))
     # ---- by position
-    oa, ob = occurrences(a), occurrences(b)
     if len(oa) != len(ob):
-        out.append(("structure-pos", "number of parameter occurrences %d -> %d" % (len(oa), len(ob))))
+        out.append(("structure-pos", "number of parameter occurrences %d -> %d" % (len(oa), len(ob)), first_diff(arith_blind(a), arith_blind(b)) or ()))
         return out
-    relabel = {}
     fwd, bwd = {}, {}
     for (pa, x), (pb, y) in zip(oa, ob):
         if spec_of(x) != spec_of(y):
-            out.append(("spec-pos", "prior at %s: %s -> %s" % (".".join(pa), spec_of(x), spec_of(y))))
+            out.append(("spec-pos", "prior at %s: %s -> %s" % (".".join(pa), spec_of(x), spec_of(y)), pa))
             break
     for (pa, x), (pb, y) in zip(oa, ob):
         if fwd.setdefault(x["id"], y["id"]) != y["id"]:
-            out.append(("partition-pos", "a shared parameter was split (%s)" % ".".join(pa)))
+            out.append(("partition-pos", "a shared parameter was split (%s)" % ".".join(pa), pa))
             break
         if bwd.setdefault(y["id"], x["id"]) != x["id"]:
-            out.append(("partition-pos", "two distinct parameters were merged (%s)" % ".".join(pa)))
+            out.append(("partition-pos", "two distinct parameters were merged (%s)" % ".".join(pa), pa))
             break
-    if arith_blind(a) != arith_blind(b):
-        # constants, structure, classes, dict constants, specs in place
+    ba, bb = arith_blind(a), arith_blind(b)
+    if ba != bb:
+        where = first_diff(ba, bb) or ()
         ca, cb = constants(a), constants(b)
         if [v for _, v in ca] != [v for _, v in cb] or len(ca) != len(cb):
-            out.append(("constants-pos", "fixed values changed: %s -> %s" % (ca[:8], cb[:8])))
+            out.append(("constants-pos", "fixed values changed: %s -> %s" % (ca[:8], cb[:8]), where))
         else:
-            out.append(("structure-pos", "the composition changed shape"))
+            out.append(("structure-pos", "the composition changed at %s (shape, class, type of a fixed value, opaque attribute)" % ".".join(where), where))
+    if item_numbers(a) != item_numbers(b):
+        bad = [p for (p, x), (_, y) in zip(item_numbers(a), item_numbers(b)) if x != y]
+        out.append(("item-number", "Collection.item_number changed: %s -> %s" % (item_numbers(a)[:4], item_numbers(b)[:4]), bad[0] if bad else ()))
     ra = {x["id"]: i for i, (_, x) in reversed(list(enumerate(oa)))}      # id -> first position
     rb = {y["id"]: i for i, (_, y) in reversed(list(enumerate(ob)))}
     if assertions_of(a, ra) != assertions_of(b, rb):
-        out.append(("assertions-pos", "assertions changed: %s -> %s" % (assertions_of(a, ra)[:3], assertions_of(b, rb)[:3])))
+        out.append(("assertions-pos", "assertions changed: %s -> %s" % (assertions_of(a, ra)[:3], assertions_of(b, rb)[:3]), ()))
     if [d for _, d in derived_of(a, ra)] != [d for _, d in derived_of(b, rb)]:
-        out.append(("derived-pos", "derived-parameter relations changed"))
-    # ---- instances
+        out.append(("derived-pos", "derived-parameter relations changed", ()))
+    # ---- instances (assertions ignored), then what the assertions say about the same values
     ia, ib = prev["inst"], nxt["inst"]
     if "ok" in ia:
         if "ok" not in ib:
-            out.append(("instance-pos", "instance_from_path_arguments raised %s on the reloaded model" % ib.get("exc")))
+            out.append(("instance-pos", "instance_from_path_arguments raised %s on the reloaded model" % ib.get("exc"), ()))
         elif not same_inst(ia["ok"], ib["ok"]):
-            out.append(("instance-pos", "supplying the same values yields a different instance"))
-        if {tuple(p): v for p, v in prev["pv"]} != {tuple(p): v for p, v in nxt["pv"]} and not any(k == "paths" for k, _ in out):
-            out.append(("paths", "the path arguments differ"))
+            out.append(("instance-pos", "supplying the same values yields a different instance", first_diff(ia["ok"], ib["ok"]) or ()))
+        if {tuple(p): v for p, v in prev["pv"]} != {tuple(p): v for p, v in nxt["pv"]} and not any(k.startswith("paths") for k, _, _ in out):
+            out.append(("paths-arith-names" if blind_same else "paths", "the path arguments differ", ()))
+    elif "ok" in ib:
+        out.append(("instance-pos", "the original raised %s but the reloaded model builds an instance" % ia.get("exc"), ()))
+    elif ia.get("exc") != ib.get("exc"):
+        out.append(("instance-pos", "instance construction raises %s instead of %s" % (ib.get("exc"), ia.get("exc")), ()))
+    for key in ("verdict", "verdict_vector"):
+        if prev.get(key) != nxt.get(key) and "n/a" not in (prev.get(key), nxt.get(key)):
+            out.append(("verdict", "%s of the same values: %s -> %s (assertions / limits gate differently)" % (key, prev.get(key), nxt.get(key)), ()))
+    # the property's own wording: the same value for each ORIGINAL path
+    sa, sb = prev.get("strict_inst"), nxt.get("strict_inst")
+    if sa is not None and sb is not None and blind_same and not any(k.startswith("paths") for k, _, _ in out):
+        if ("ok" in sa) != ("ok" in sb) or ("ok" in sa and not same_inst(sa["ok"], sb["ok"])) or ("exc" in sa and sa["exc"] != sb.get("exc")):
+            out.append(("instance-strict", "instance_from_path_arguments({original path: value}) differs: %s -> %s"
+                        % (sa.get("exc", "instance"), sb.get("exc", "instance")), first_diff(sa.get("ok"), sb.get("ok")) or ()))
+    if step is not None and step.get("rows_out_of_order"):
+        out.append(("row-order", "database rows came back in another order than written under %s" % step["rows_out_of_order"][:3], ()))
     # ---- order (pickle and database forms)
     if form in ("pickle", "db"):
         ranka = {i: k for k, i in enumerate(prev["ids"])}
@@ -596,7 +690,7 @@ def compare_states(prev, nxt, form):
         seqa = [ranka.get(x["id"]) for _, x in oa]
         seqb = [rankb.get(y["id"]) for _, y in ob]
         if seqa != seqb:
-            out.append(("order-pos", "parameter order changed: positions %s -> %s" % (seqa[:10], seqb[:10])))
+            out.append(("order-pos", "parameter order changed: positions %s -> %s" % (seqa[:10], seqb[:10]), ()))
     return out
 
 
@@ -630,7 +724,7 @@ def case_features(c):
         if a["a"]["k"] == "chain":
             feats.add("assert-chain")
     lv = levels(root)
-    dict_levels = [list(l) for l, _, _ in c.get("dicts", [])]
+    dict_levels = [list(l) for l, _, _ in c.get("dicts", [])] + [list(l) for l, _, _ in c.get("opaques", [])]
     for p, n in lv:
         if n["t"] == "model" and p and not refs_in(n):
             feats.add("zeroprior")
@@ -641,6 +735,8 @@ def case_features(c):
             parent = [m for q, m in lv if q == p[:-1]][0]
             if parent["t"] == "model":
                 feats.add("zeroprior-in-model")
+    for l, name, kind in c.get("opaques", []):
+        feats.add("opaque:" + kind)
     for l, name, items in c.get("dicts", []):
         feats.add("dict")
         if any(unhex(v) == 0.0 for _, v in items):
@@ -648,33 +744,44 @@ def case_features(c):
     return feats
 
 
-def classes_for(c, step_index, clause):
+def zero_prior_paths(c):
+    root = c["program"]["root"]
+    return [tuple(p) for p, n in levels(root) if n["t"] == "model" and p and not refs_in(n)]
+
+
+def classes_for(c, step_index, clause, where=()):
+    """Finding classes of a failing clause: a function of the case, the clause and (only to NARROW a class)
+    the place of the first difference."""
     feats = case_features(c)
     forms = [s["form"] for s in c["steps"][:step_index + 1]]
     form = forms[-1]
+    where = tuple(where or ())
     out = []
-    if clause == "paths" and "arith" in feats and form in ("dict", "db"):
+    # operand attribute names of arithmetic priors: ONLY a path difference that vanishes when the operand names are blinded
+    if clause == "paths-arith-names" and "arith" in feats and form in ("dict", "db"):
         out.append("arith-names")
-    if clause in ("partition", "partition-pos", "order-pos", "instance-pos", "derived-pos", "assertions-pos") and form == "db" and feats & {"new", "with_limits", "passed"}:
-        out.append("db-message-id")
-    # a database trip that merged copies leaves several prior OBJECTS with one id: whatever follows starts from that
-    if ("db" in forms[:-1] and feats & {"new", "with_limits", "passed"}
-            and clause in ("paths", "partition", "partition-pos", "order-pos", "instance-pos", "derived-pos", "assertions-pos",
-                           "spec-pos", "structure-pos")):
-        out.append("db-message-id")
-    if clause == "exception:AttributeError" and form == "db":
-        if "assert-chain" in feats:
-            out.append("db-chained-assertion")
-        if "pickle" in forms[:-1] and ("fam:gaussian" in feats or "passed" in feats):
-            out.append("db-message-id")
-    if clause == "exception:TypeError" and form == "dict":
-        if "fam:loggaussian" in feats:
-            out.append("dict-loggaussian")
-        if "zeroprior-extra" in feats:
+    # a component without free parameters written as "instance": only differences located inside such a component
+    zp = zero_prior_paths(c)
+    under_zero = any(where[:len(z)] == z for z in zp)
+    if form == "dict":
+        if clause == "exception:TypeError" and "zeroprior-extra" in feats:
             out.append("dict-zero-prior-instance")
-    if clause in ("instance-pos", "structure-pos") and form == "dict" and feats & {"zeroprior-tuple", "zeroprior-in-model"}:
-        out.append("dict-zero-prior-instance")
-    if clause in ("constants-pos", "instance-pos", "structure-pos") and form == "dict" and "dict-falsy" in feats:
+        if clause in ("instance-pos", "structure-pos", "instance-strict") and under_zero and "zeroprior-tuple" in feats:
+            out.append("dict-zero-prior-instance")
+    # database Value rows are REAL columns: an int constant comes back as a float (the attribute it sits in is known from the case)
+    int_attrs = [tuple(l) + (nm,) for l, nm, kind in c.get("opaques", []) if kind == "int"]
+    if form == "db" and clause in ("structure-pos", "constants-pos") and where in int_attrs:
+        out.append("db-int-as-float")
+    if clause == "item-number" and "db" in forms:      # lost by the database trip; a later dict trip recomputes it
+        out.append("db-collection-item-number")
+    # classes of repaired defects (status fixed: they suppress nothing; kept so that a regression is named)
+    if clause in ("partition", "partition-pos", "order-pos") and form == "db" and feats & {"new", "with_limits", "passed"}:
+        out.append("db-message-id")
+    if clause == "exception:AttributeError" and form == "db" and "assert-chain" in feats:
+        out.append("db-chained-assertion")
+    if clause == "exception:TypeError" and form == "dict" and "fam:loggaussian" in feats:
+        out.append("dict-loggaussian")
+    if clause in ("constants-pos", "structure-pos") and form == "dict" and "dict-falsy" in feats:
         out.append("dict-falsy-constant")
     return out
 
@@ -779,12 +886,12 @@ def coq_obs(o):
     rk = {v: i for i, v in enumerate(sorted(acc))}
     if any(i not in rk for i in o["ids"]):
         return None
-    if "ok" not in o["inst"] or has_other_inst(o["inst"]["ok"]):
-        return None
+    # the instance is compared when there is one (division by zero in a derived value: state / paths / ids are still compared)
+    inst = "None" if ("ok" not in o["inst"] or has_other_inst(o["inst"]["ok"])) else "(Some %s)" % MG.coq_ival(o["inst"]["ok"])
     return ("{| o_state := %s; o_paths := %s; o_count := %s; o_ids := %s; o_pv := %s; o_inst := %s |}" % (
         coq_state(o["state"], rk), clist([MG.coq_path(p) for p in o["paths"]]), cnat(o["count"]),
         clist([cnat(rk[i]) for i in o["ids"]]),
-        clist([cpair(MG.coq_path(p), cfloat(unhex(v))) for p, v in o["pv"]]), MG.coq_ival(o["inst"]["ok"])))
+        clist([cpair(MG.coq_path(p), cfloat(unhex(v))) for p, v in o["pv"]]), inst))
 
 
 def has_other_inst(i):
@@ -828,16 +935,98 @@ def coq_case(c, r, cfg):
 # array / modified-prior stream (oracle only)
 # --------------------------------------------------------------------------------------
 def gen_array_case(rng):
-    if rng.random() < 0.25:
-        form = rng.choice(["dict", "pickle", "db"])
-        return {"kind": "modified", "prior": {"family": "uniform", "lo": (0.0).hex(), "hi": (2.0).hex()},
-                "steps": [{"form": form, "variant": {"dict": "dict", "pickle": "pickle", "db": "fit"}[form]}]}
-    fam = rng.choice(["uniform", "gaussian"])
-    spec = ({"family": "uniform", "lo": (0.0).hex(), "hi": (2.0).hex()} if fam == "uniform" else
-            {"family": "gaussian", "mean": (0.5).hex(), "sigma": (0.25).hex(), "lo": (-1.0).hex(), "hi": (2.0).hex()})
-    form = rng.choice(["dict", "pickle", "db"])
-    return {"kind": "array", "prior": spec, "shape": rng.choice([[2], [3], [2, 2]]), "share": rng.random() < 0.4,
-            "steps": [{"form": form, "variant": {"dict": "dict", "pickle": "pickle", "db": "fit"}[form]}]}
+    def steps():
+        out = []
+        for _ in range(rng.choice([1, 1, 2])):
+            form = rng.choice(["dict", "pickle", "db", "db"])
+            out.append({"form": form, "variant": {"dict": rng.choice(["dict", "autoconf"]), "pickle": rng.choice(["pickle", "dill"]), "db": "fit"}[form]})
+        return out
+    if rng.random() < 0.2:
+        return {"kind": "modified", "prior": {"family": "uniform", "lo": (0.0).hex(), "hi": (2.0).hex()}, "steps": steps()[:1]}
+    fam = rng.choice(["uniform", "gaussian", "loguniform"])
+    spec = {"uniform": {"family": "uniform", "lo": (0.0).hex(), "hi": (2.0).hex()},
+            "gaussian": {"family": "gaussian", "mean": (0.5).hex(), "sigma": (0.25).hex(), "lo": (-1.0).hex(), "hi": (2.0).hex()},
+            "loguniform": {"family": "loguniform", "lo": (0.5).hex(), "hi": (4.0).hex()}}[fam]
+    entries = []
+    if rng.random() < 0.6:          # heterogeneous: a fixed entry and/or an entry with a prior of its own
+        if rng.random() < 0.7:
+            entries.append([rng.randrange(1, 4), {"t": "const", "v": (rng.randint(-8, 8) / 4.0).hex()}])
+        if rng.random() < 0.7:
+            entries.append([rng.randrange(1, 4), {"t": "prior", "spec": {"family": "uniform", "lo": (-1.5).hex(), "hi": rng.uniform(0.1, 3).hex()}}])
+    share = rng.random() < 0.4
+    return {"kind": "array", "prior": spec, "shape": rng.choice([[2], [3], [2, 2], [1, 3]]), "share": share,
+            "bare": (not share) and rng.random() < 0.25, "entries": entries, "steps": steps()}
+
+
+def compare_arrays(prev, nxt):
+    out = []
+    if [p for p, _ in prev["path_ids"]] != [p for p, _ in nxt["path_ids"]]:
+        out.append(("paths", "parameter paths changed: %s -> %s" % ([p for p, _ in prev["path_ids"]][:5], [p for p, _ in nxt["path_ids"]][:5])))
+    else:
+        fwd, bwd = {}, {}
+        for (p, x), (_, y) in zip(prev["path_ids"], nxt["path_ids"]):
+            if fwd.setdefault(x, y) != y or bwd.setdefault(y, x) != x:
+                out.append(("partition", "sharing changed at %s" % ".".join(p)))
+                break
+    if prev["count"] != nxt["count"]:
+        out.append(("partition", "prior_count %d -> %d" % (prev["count"], nxt["count"])))
+    if prev["specs"] != nxt["specs"]:
+        out.append(("spec", "prior specifications changed: %s -> %s" % (prev["specs"][:3], nxt["specs"][:3])))
+    ba, bb = arith_blind(prev["state"]), arith_blind(nxt["state"])
+    if ba != bb:
+        where = first_diff(ba, bb) or ()
+        shape = [(n.get("shape"), n.get("indices")) for n in (ba, bb)] if ba.get("shape") else None
+        out.append(("array-structure", "the array model changed at %s: %s" % (".".join(where), json.dumps([ba, bb])[:300])))
+    for key in ("inst", "medians"):
+        x, y = prev[key], nxt[key]
+        if "ok" in x and ("ok" not in y or not same_inst(x["ok"], y["ok"])):
+            out.append(("array-instance", "%s: %s -> %s" % (key, str(x.get("ok"))[:120], y.get("exc") or str(y.get("ok"))[:120])))
+    return out
+
+
+def only_int_float(a, b):
+    """Do the two array models differ in nothing but int-versus-float inside shape / indices?"""
+    import ast
+
+    def norm(x):
+        if isinstance(x, bool):
+            return x
+        if isinstance(x, (int, float)):
+            return float(x)
+        if isinstance(x, tuple):
+            return ("tuple",) + tuple(norm(y) for y in x)
+        if isinstance(x, list):
+            return ["list"] + [norm(y) for y in x]
+        return x
+
+    def strip(n):
+        n = json.loads(json.dumps(n))
+
+        def go(m):
+            if isinstance(m, dict):
+                for key in ("shape", "indices"):
+                    if isinstance(m.get(key), str):
+                        try:
+                            m[key] = repr(norm(ast.literal_eval(m[key])))
+                        except Exception:  # noqa
+                            pass
+                for v in m.values():
+                    go(v)
+            elif isinstance(m, list):
+                for v in m:
+                    go(v)
+        go(n)
+        return n
+    return strip(arith_blind(a)) == strip(arith_blind(b))
+
+
+def array_shapes(state):
+    out = []
+    if state["t"] == "array":
+        out.append((state["shape"], state["indices"]))
+    for _, v in kids(state):
+        out += array_shapes(v)
+    return out
 
 
 # --------------------------------------------------------------------------------------
@@ -872,7 +1061,7 @@ def run(ctx):
         if not (1 <= len(c["program"]["pool"]) <= 30) or not refs_in(c["program"]["root"]):
             continue
         cases.append(c)
-    for _ in range(12 if ctx.tier == "quick" else 60):
+    for _ in range(24 if ctx.tier == "quick" else 160):
         cases.append(gen_array_case(ctx.rng))
     if ctx.replay:
         rp = json.load(open(ctx.replay))
@@ -881,10 +1070,20 @@ def run(ctx):
     # which of the modelled repairs does this tree contain (the theorems hold for every configuration)
     pr = common.run_impl("c08_impl", {"cases": [{"kind": "probe"}]}, timeout=300)
     cfg = (pr.get("results") or [{}])[0].get("ok")
-    ctx.obligation("translator:cfg-probe", "translator", isinstance(cfg, dict) and len(cfg) == 4, json.dumps(pr)[-300:])
+    ctx.obligation("translator:cfg-probe", "translator", isinstance(cfg, dict) and len(cfg) == 5, json.dumps(pr)[-300:])
     if not isinstance(cfg, dict):
         return
     ctx.notes["code_configuration"] = cfg
+    ctx.obligation("harness:dill-available", "harness", bool(cfg.get("dill")), "the dill variant of the pickle form would silently fall back to pickle")
+    # a repair recorded as fixed must still be present: the model follows the probed code, so a reverted
+    # repair would not disagree with it -- this obligation (and the oracle on the corpus findings) is what reports it
+    FLAG = {"db-prior-id-read-through-message": "fix_db_id", "dict-loggaussian-no-mean-sigma": "fix_loggaussian",
+            "db-chained-assertion": "fix_chain", "dict-branch-drops-falsy-values": "fix_falsy"}
+    for k in common.load_known("C08"):
+        if k.get("status") == "fixed" and k.get("signature") in FLAG:
+            ok = bool(cfg.get(FLAG[k["signature"]]))
+            ctx.obligation("cfg-is-fixed:" + FLAG[k["signature"]], "translator", ok,
+                           "" if ok else "repair %s (%s) is no longer present in the tree" % (k.get("commit"), k["signature"]))
     chunks = [ch for ch in (cases[i::common.NCPU] for i in range(common.NCPU)) if ch]
     outs = common.run_impl_parallel("c08_impl", [{"cases": ch} for ch in chunks], timeout=1500)
     results = [None] * len(cases)
@@ -929,19 +1128,23 @@ def run(ctx):
             sub = dict(c, steps=c["steps"][:k + 1])
             if "exc" in st:
                 clause = "exception:" + st["exc"]
+                ctx.hist("trip-exception", st["exc"])
                 ctx.oracle["failures"] += 1
                 oracle_failed = True
                 ctx.failure("oracle", "%s round trip (step %d) raised %s: %s" % (form, k + 1, st["exc"], st.get("msg", "")),
                             sub, classes=classes_for(c, k, clause), impl=st)
                 break
-            for clause, msg in compare_states(r["states"][k], r["states"][k + 1], form):
+            for clause, msg, where in compare_states(r["states"][k], r["states"][k + 1], form, st):
                 ctx.oracle["failures"] += 1
                 oracle_failed = True
-                ctx.failure("oracle", "%s round trip (step %d): %s" % (form, k + 1, msg), sub,
-                            classes=classes_for(c, k, clause), impl={"before": r["states"][k]["state"], "after": r["states"][k + 1]["state"]})
+                ctx.failure("oracle", "%s round trip (step %d) [%s]: %s" % (form, k + 1, clause, msg), sub,
+                            classes=classes_for(c, k, clause, where), impl={"before": r["states"][k]["state"], "after": r["states"][k + 1]["state"]})
         cc = coq_case(c, r, cfg)
         if cc is None:
             ctx.hist("correspondence", "not-printable")
+            for st in r["steps"]:
+                if "exc" in st and st["exc"] not in ERRS:
+                    ctx.hist("not-printable-exception", st["exc"])
         else:
             coq_cases.append(cc)
             coq_idx.append((i, oracle_failed))
@@ -961,29 +1164,45 @@ def run(ctx):
 
 
 def run_array_oracle(ctx, c, r):
-    form = c["steps"][0]["form"]
-    ctx.count_case(c, True, kind=c["kind"] + ":" + form)
-    ctx.oracle["cases"] += 1
     if "exc" in r:
+        ctx.count_case(c, True, kind=c["kind"])
         ctx.failure("oracle", "array driver raised %s" % r.get("msg", "")[-300:], c)
         return
     r = r["ok"]
-    classes = []
     if c["kind"] == "modified":
-        if form in ("dict", "db"):
-            classes.append("modified-prior")
-    else:
-        if form == "db":
-            classes.append("db-message-id")
-        if form == "dict":
-            classes.append("dict-array")
-    if "exc" in r["steps"][0]:
-        ctx.oracle["failures"] += 1
-        ctx.failure("oracle", "%s model: %s round trip raised %s" % (c["kind"], form, r["steps"][0]["exc"]), c, classes=classes, impl=r)
-    elif "inst" in r and ("ok" not in r["inst"][1] or not same_inst(r["inst"][0]["ok"], r["inst"][1]["ok"])):
-        ctx.oracle["failures"] += 1
-        ctx.failure("oracle", "%s model: instance differs after %s round trip" % (c["kind"], form), c, classes=classes, impl=r)
-    elif r["count"][0] != r["count"][1] or r["paths"][0] != r["paths"][1]:
-        ctx.oracle["failures"] += 1
-        ctx.failure("oracle", "array model: prior_count %s -> %s, paths %s -> %s" % (r["count"][0], r["count"][1], r["paths"][0][:4], r["paths"][1][:4]),
-                    c, classes=classes, impl=r)
+        form = c["steps"][0]["form"]
+        ctx.count_case(c, True, kind="modified:" + form)
+        ctx.oracle["cases"] += 1
+        classes = ["modified-prior"] if form in ("dict", "db") else []
+        if "exc" in r["steps"][0]:
+            ctx.oracle["failures"] += 1
+            ctx.failure("oracle", "modified model: %s round trip raised %s" % (form, r["steps"][0]["exc"]), c, classes=classes, impl=r)
+        elif "ok" not in r["inst"][1] or not same_inst(r["inst"][0]["ok"], r["inst"][1]["ok"]):
+            ctx.oracle["failures"] += 1
+            ctx.failure("oracle", "modified model: instance differs after %s round trip" % form, c, classes=classes, impl=r)
+        elif r["count"][0] != r["count"][1] or r["paths"][0] != r["paths"][1]:
+            ctx.oracle["failures"] += 1
+            ctx.failure("oracle", "modified model: prior_count / paths changed", c, classes=classes, impl=r)
+        return
+    for k, st in enumerate(r["steps"]):
+        form = c["steps"][k]["form"]
+        sub = dict(c, steps=c["steps"][:k + 1])
+        ctx.count_case(sub, True, kind="array:" + form)
+        ctx.oracle["cases"] += 1
+        forms = [x["form"] for x in c["steps"][:k + 1]]
+        if "exc" in st:
+            ctx.oracle["failures"] += 1
+            # Array.__init__ / np.ndindex on a float shape that an earlier database trip left behind
+            classes = ["array-db-int-shape"] if ("db" in forms[:-1] and st["exc"] == "TypeError") else []
+            ctx.failure("oracle", "array model: %s round trip (step %d) raised %s: %s" % (form, k + 1, st["exc"], st.get("msg")), sub,
+                        classes=classes, impl=st)
+            break
+        for clause, msg in compare_arrays(r["states"][k], r["states"][k + 1]):
+            classes = []
+            # database Value rows are REAL: Array.shape / indices (ints) come back as floats; only the array-shaped clauses,
+            # only on (or after) a database trip of an Array
+            if clause in ("array-structure", "array-instance") and "db" in forms and only_int_float(r["states"][k]["state"], r["states"][k + 1]["state"]):
+                classes.append("array-db-int-shape")
+            ctx.oracle["failures"] += 1
+            ctx.failure("oracle", "array model: %s round trip (step %d) [%s]: %s" % (form, k + 1, clause, msg), sub, classes=classes,
+                        impl={"before": r["states"][k], "after": r["states"][k + 1]})
